@@ -150,7 +150,17 @@ extern uint64_t vf_trace_sum;
 #define VF_TRACE_KEEP(v) ((void)0)
 #define VF_TRACE_DISJ
 #endif
-#define VF_VIS(x) (vf_vis_t = (x), VF_TRACE_KEEP(vf_vis_t))
+/* schedule markers are constants for CBMC (the running thread is concrete), so in a sliced trace only
+ * their running sum survives: the extractor recovers each marker as the difference of successive
+ * values of vf_trace_vsum */
+extern uint64_t vf_trace_vsum;
+#ifdef VF_TRACE_RUN
+#define VF_VIS(x) (vf_vis_t = (x), vf_trace_vsum += (uint64_t)(vf_vis_t) + 1)
+#undef VF_TRACE_DISJ
+#define VF_TRACE_DISJ || (vf_trace_sum == 0x5bd1e9955bd1e995ULL) || (vf_trace_vsum == 0x5bd1e9955bd1e995ULL)
+#else
+#define VF_VIS(x) (vf_vis_t = (x))
+#endif
 #ifdef VF_WITNESS
 #define VF_CHECK(c, label) ((void)(c))
 #else
